@@ -30,10 +30,20 @@ pub struct BfsOut<O> {
     pub findings: Vec<(Finding, Vec<O>)>,
     pub nontrivial: u64,
     pub sample: Vec<Vec<O>>,
+    /// executions spent on the look-ahead of merged histories
+    pub lookahead: u64,
 }
 
 pub fn bfs<O: Clone + Send + Sync + Debug>(ops: &[O], max_states: usize, max_depth: usize, eval: &(dyn Fn(&[O]) -> EvalOut + Sync)) -> BfsOut<O> {
-    let mut out = BfsOut { states: 0, evals: 0, max_depth: 0, closed: true, capped: None, findings: vec![], nontrivial: 0, sample: vec![] };
+    bfs_la(ops, max_states, max_depth, 0, eval)
+}
+
+/// `la_levels` > 0: abstraction adequacy by look-ahead. A history of length <= `la_levels` whose state
+/// key was already reached by another history is not expanded, but every one-step extension of it is
+/// still executed and judged — so an object that *looks* like a known state but is internally
+/// different (a corrupted index, a stale cache) is driven one step further on its own.
+pub fn bfs_la<O: Clone + Send + Sync + Debug>(ops: &[O], max_states: usize, max_depth: usize, la_levels: usize, eval: &(dyn Fn(&[O]) -> EvalOut + Sync)) -> BfsOut<O> {
+    let mut out = BfsOut { states: 0, evals: 0, max_depth: 0, closed: true, capped: None, findings: vec![], nontrivial: 0, sample: vec![], lookahead: 0 };
     let mut seen: HashMap<Vec<u8>, ()> = HashMap::new();
     let r0 = eval(&[]);
     out.evals += 1;
@@ -54,6 +64,7 @@ pub fn bfs<O: Clone + Send + Sync + Debug>(ops: &[O], max_states: usize, max_dep
             break;
         }
         let mut next: Vec<Vec<O>> = vec![];
+        let mut dups: Vec<Vec<O>> = vec![];
         for chunk in frontier.chunks(4096) {
             let results: Vec<Vec<(Vec<O>, EvalOut)>> = chunk
                 .par_iter()
@@ -86,6 +97,8 @@ pub fn bfs<O: Clone + Send + Sync + Debug>(ops: &[O], max_states: usize, max_dep
                                 out.sample.push(h2.clone());
                             }
                             next.push(h2);
+                        } else if depth < la_levels {
+                            dups.push(h2);
                         }
                     }
                 }
@@ -96,6 +109,32 @@ pub fn bfs<O: Clone + Send + Sync + Debug>(ops: &[O], max_states: usize, max_dep
                 out.states = seen.len() as u64;
                 out.max_depth = depth + 1;
                 return out;
+            }
+        }
+        for chunk in dups.chunks(4096) {
+            let results: Vec<Vec<(Vec<O>, EvalOut)>> = chunk
+                .par_iter()
+                .map(|h| {
+                    ops.iter()
+                        .map(|op| {
+                            let mut h2 = h.clone();
+                            h2.push(op.clone());
+                            let r = eval(&h2);
+                            (h2, r)
+                        })
+                        .collect()
+                })
+                .collect();
+            for group in results {
+                for (h2, r) in group {
+                    out.evals += 1;
+                    out.lookahead += 1;
+                    for f in r.findings {
+                        if out.findings.len() < 2000 {
+                            out.findings.push((f, h2.clone()));
+                        }
+                    }
+                }
             }
         }
         depth += 1;
@@ -807,7 +846,7 @@ pub fn run_sampled(prop: &'static str, tier: Tier) -> EngineReport {
     for (cfg, depth) in menu {
         let ops = sl_ops(&cfg);
         let c2 = cfg.clone();
-        let out = bfs(&ops, if big { 1_000_000 } else { 30_000 }, depth, &move |h: &[SlOp]| sl_eval(&c2, h));
+        let out = bfs_la(&ops, if big { 1_000_000 } else { 30_000 }, depth, if big { 6 } else { 4 }, &move |h: &[SlOp]| sl_eval(&c2, h));
         rep.states += out.states;
         rep.transitions += out.evals;
         rep.evaluations += out.evals;
@@ -815,7 +854,8 @@ pub fn run_sampled(prop: &'static str, tier: Tier) -> EngineReport {
         if !out.closed {
             rep.exhaustive = false;
         }
-        details.push(json!({"config": cfg, "ops": ops.len(), "states": out.states, "executions": out.evals, "depth": out.max_depth, "closed": out.closed, "capped": out.capped}));
+        details.push(json!({"config": cfg, "ops": ops.len(), "states": out.states, "executions": out.evals, "depth": out.max_depth, "closed": out.closed, "capped": out.capped,
+            "lookahead_executions_on_merged_histories": out.lookahead}));
         for s in out.sample.iter().take(1) {
             rep.samples.push(json!({"engine": "sampledlfu", "config": cfg, "history": format!("{:?}", s)}));
         }
